@@ -114,6 +114,15 @@ impl Env {
     }
 }
 
+/// '*' matches any (possibly empty) run of characters.
+fn glob(p: &[u8], s: &[u8]) -> bool {
+    match p.first() {
+        None => s.is_empty(),
+        Some(b'*') => (0..=s.len()).any(|i| glob(&p[1..], &s[i..])),
+        Some(c) => s.first() == Some(c) && glob(&p[1..], &s[1..]),
+    }
+}
+
 thread_local! {
     static ENV: RefCell<Option<Env>> = const { RefCell::new(None) };
     static IN_HOOK: std::cell::Cell<bool> = const { std::cell::Cell::new(false) };
@@ -193,10 +202,14 @@ fn enter(func: &'static str, base_key: impl FnOnce(&mut Env) -> (String, bool), 
         }
         let (key, _counted) = base_key(env);
         let cb = env.before.remove(&key);
-        let d = match env.plan.get(&key) {
-            Some(Alt::Errno(e)) => Decision::Fail(*e),
-            Some(Alt::Short(n)) => Decision::Short(*n),
-            Some(Alt::Redirect(p)) => Decision::Redirect(p.clone()),
+        // exact key first, then wildcard entries ("vmread#*" matches every vmread#k)
+        let alt = env.plan.get(&key).cloned().or_else(|| {
+            env.plan.iter().find(|(k, _)| k.contains('*') && glob(k.as_bytes(), key.as_bytes())).map(|(_, a)| a.clone())
+        });
+        let d = match alt {
+            Some(Alt::Errno(e)) => Decision::Fail(e),
+            Some(Alt::Short(n)) => Decision::Short(n),
+            Some(Alt::Redirect(p)) => Decision::Redirect(p),
             None => Decision::Pass,
         };
         (key, d, cb)
